@@ -28,7 +28,7 @@ func init() {
 		Real:       distReal,
 		Stub:       distStub,
 		Assumes:    []string{"generator never names staking pools, distribution, cfeminter or cfevesting accounts as sources", "amounts <= 1e30"},
-		FaultKinds: []string{"F-clock", "F-order (fee-paying bank traffic between blocks)"},
+		FaultKinds: []string{"F-clock", "F-order (fee-paying bank traffic between blocks)", "F-crash (every fifth run: death before / inside Commit in ~12% of the blocks, restart, re-execution)", "F-simulate + F-rollback (every fifth run: a quarter of the transactions are only handed to the Simulate service, or are a governance execution [parameter update, failing message] that x/gov drops as a whole; nothing of either may stick)", "F-export (every fifth run: export and restart from the exported genesis after ~8% of the blocks)"},
 	})
 	Register(&Prop{
 		ID:    "C04",
@@ -42,7 +42,7 @@ func init() {
 		Real:       distReal,
 		Stub:       distStub,
 		Assumes:    []string{"tolerance 1e-6 base units absorbs the chain's 18-digit truncation of shares over a run", "payouts are attributed by bank transfer events whose sender is the distributor's main account"},
-		FaultKinds: []string{"F-clock", "F-order (fee-paying bank traffic between blocks)"},
+		FaultKinds: []string{"F-clock", "F-order (fee-paying bank traffic between blocks)", "F-crash (every fifth run: death before / inside Commit in ~12% of the blocks, restart, re-execution)", "F-simulate + F-rollback (every fifth run: a quarter of the transactions are only handed to the Simulate service, or are a governance execution [parameter update, failing message] that x/gov drops as a whole; nothing of either may stick)", "F-export (every fifth run: export and restart from the exported genesis after ~8% of the blocks)"},
 	})
 }
 
@@ -126,13 +126,22 @@ func c04Twin(o *Outcome, runA *kernel.Run) {
 
 func distRunSeed(prop string, seed uint64, tier string) *Outcome {
 	r := kernel.NewRng(seed)
-	opts := distProfileOpts{Prop: prop, Blocks: [2]int{10, 40}, MaxAmtExp: 30}
+	opts := distProfileOpts{Prop: prop, Blocks: [2]int{10, 40}, MaxAmtExp: 30, BlockedDests: prop == "C03", GenMinter: prop == "C18" && seed%4 == 0}
 	spec, cfg, err := buildDistWorld(r.Fork(10), opts)
 	if err != nil {
 		return &Outcome{InfraErr: err}
 	}
 	tr := &kernel.Trace{Profile: prop, Seed: seed, Spec: *spec}
 	src := distSource(r.Fork(11), spec, cfg, opts)
+	if seed%5 == 2 {
+		src.CrashP = 0.12
+	}
+	if seed%5 == 3 {
+		simOverlay(src, spec)
+	}
+	if seed%5 == 4 {
+		src.ExportP = 0.08
+	}
 	mons := distMonitors(prop, true)
 	run, o := execTrace(tr, src, mons, false)
 	if prop == "C04" {
